@@ -417,7 +417,15 @@ class SymInterp(PathInterp):
 
     def bind_loop(self, node, st: Sym, i: int):
         if isinstance(node, ast.For):
-            st = self.assign(node.target, f"ITEM({i}, {self.text(node.iter, st)})", st)
+            it = node.iter
+            # iterating `(f(x) for x in xs)` binds the target to f(ITEM(i, xs))
+            if isinstance(it, (ast.GeneratorExp, ast.ListComp)) and len(it.generators) == 1 and not it.generators[0].ifs \
+                    and isinstance(it.generators[0].target, ast.Name):
+                g = it.generators[0]
+                inner = st.set(g.target.id, f"ITEM({i}, {self.text(g.iter, st)})")
+                st = self.assign(node.target, self.text(it.elt, inner), st)
+            else:
+                st = self.assign(node.target, f"ITEM({i}, {self.text(it, st)})", st)
         return st
 
 
